@@ -159,6 +159,35 @@ loop:
 		if slowAfter > 0 && len(evs) > 0 {
 			time.Sleep(slowAfter)
 		}
+		// which side reached the rendezvous first? a receive that is ready at once means the
+		// producer was already waiting in its send ('p'); otherwise the consumer waits ('c')
+		ready := true
+		select {
+		case n := <-p.Nodes:
+			evs = append(evs, c18Event{Kind: "node", Node: n})
+		case e := <-p.Errors:
+			evs = append(evs, c18Event{Kind: "err", Text: e.Error()})
+			if policy == "A" {
+				pat.WriteByte('p')
+				c.Count("rendezvous_producer_first", 1)
+				break loop
+			}
+		case <-p.Done:
+			evs = append(evs, c18Event{Kind: "done"})
+			gotDone = true
+			pat.WriteByte('p')
+			c.Count("rendezvous_producer_first", 1)
+			break loop
+		default:
+			ready = false
+		}
+		if ready {
+			pat.WriteByte('p')
+			c.Count("rendezvous_producer_first", 1)
+			continue
+		}
+		pat.WriteByte('c')
+		c.Count("rendezvous_consumer_first", 1)
 		select {
 		case n := <-p.Nodes:
 			// keep the pointer; fields are read only after the producer has moved on
@@ -201,8 +230,8 @@ loop:
 	for _, e := range evs {
 		trace = append(trace, e.String())
 	}
-	if pat.Len() > 40 {
-		return trace, pat.String()[:40], verdict
+	if pat.Len() > 60 {
+		return trace, pat.String()[:60], verdict
 	}
 	return trace, pat.String(), verdict
 }
@@ -256,7 +285,7 @@ func c18Inputs(c *core.Ctx, n int) []c18Input {
 }
 
 func runC18(c *core.Ctx) {
-	c.SetRule("runs: inputs {valid, 1-4 malformed lines, empty/comment-only, reader failing at a random offset, 66 kB line, ParseFile on a regular file / missing path / directory} x consumer policy {A: documented loop, stop at first error or Done; B: drain until Done} x PRNG-chosen jitter (consumer: none/Gosched/50-500us sleep/busy loop before each receive; reader: none/Gosched/sleeps between chunks, chunk sizes 1..whole) x GOMAXPROCS {1,2,16}; harness built with the race detector. Oracle: trace at the consumer boundary == callback parser's nodes before its first error, then that error (A) / the error once, Done, producer exit (B). Non-trivial = run with >= 1 node or an error; distinct = hash(input, policy, jitter pattern).")
+	c.SetRule("runs: inputs {valid, 1-4 malformed lines, empty/comment-only, reader failing at a random offset, 66 kB line, ParseFile on a regular file / missing path / directory} x consumer policy {A: documented loop, stop at first error or Done; B: drain until Done} x PRNG-chosen jitter (consumer: none/Gosched/50-500us sleep/busy loop before each receive; reader: none/Gosched/sleeps between chunks, chunk sizes 1..whole) x GOMAXPROCS {1,2,16}; harness built with the race detector. Oracle: trace at the consumer boundary == callback parser's nodes before its first error, then that error (A) / the error once, Done, producer exit (B). At every receive the monitor records which side reached the rendezvous first (p: the producer was already blocked in its send, c: the consumer had to wait); the jitter/arrival pattern is part of the case identity and the totals of both arrival orders are in the evidence. Non-trivial = run with >= 1 node or an error; distinct = hash(input, policy, jitter and arrival-order pattern).")
 	c.Assume("a producer left blocked after a policy-A consumer stops early is not asserted (the property does not promise it)")
 	c.Assume("wall-clock watchdogs are inconclusive unless a goroutine dump shows the producer blocked in a channel send")
 
